@@ -173,13 +173,37 @@ func c16RunHandoff(m *vk.M, idx int, hc c16HandoffCase) (nontrivial, ok bool) {
 		return false, false
 	}
 	// A's tasks: in the container when B's next Add reaches the threshold
-	for i := 1; i < hc.Batch; i++ {
-		add(mk(1, i))
+	// (staging only, no verdict: these Adds stay below the threshold; if they cannot complete
+	// while batch k's callback is parked, the hand-off window cannot be staged at all)
+	_, aDone := c16Bg(func() {
+		for i := 1; i < hc.Batch; i++ {
+			add(mk(1, i))
+		}
+	})
+	serialised := func() bool {
+		return c16ParkedIn("addAndCheck", "sync.(*Mutex).Lock") || c16ParkedIn("addAndCheck", "sync.(*Mutex).lockSlow")
+	}
+	unstaged := func(what string) (bool, bool) {
+		why := ""
+		if serialised() {
+			why = ": an Add is parked on the executor's lock while batch k's execute callback is held by the harness, i.e. Add is serialised behind a running execute (executor lock held across execute?); TestVerifC16Reentrant decides whether that breaks the statement"
+		}
+		m.Inconclusive("case %d: hand-off could not be staged, %s%s", idx, what, why)
+		return false, false
+	}
+	if !vk.WaitUntil(c16Stall, func() bool {
+		select {
+		case <-aDone:
+			return true
+		default:
+			return false
+		}
+	}) {
+		return unstaged("the contributor's Adds below the threshold did not return")
 	}
 	bWait, _ := c16Bg(func() { add(mk(0, hc.Batch+1)) })
 	if !vk.WaitUntil(c16Stall, func() bool { return atomic.LoadInt32(&s.pe.inflight) == 1 }) {
-		m.Inconclusive("case %d: threshold Add did not hand its batch over (inflight never 1)", idx)
-		return false, false
+		return unstaged("the threshold Add did not hand its batch over (inflight never 1)")
 	}
 	who := 1
 	if hc.Waiter == "bystander" {
